@@ -301,7 +301,22 @@ def iter_shape(sh):
 def hyp_cases(draw, tier):
     opts = gen.node_opts(explicit_ids=True)
     spec = draw(gen.forest_specs(max_nodes=12, max_depth=4, max_width=4, min_nodes=2, opts=opts, alphabet=LABELS))
-    gen.fix_sibling_ids(spec)
+    if draw(st.sampled_from([0, 1])):
+        # a key that is the explicit data_id of one node AND the plain data of another
+        flat0 = []
+
+        def collect0(nodes_):
+            for n in nodes_:
+                flat0.append(n)
+                collect0(n[1])
+
+        collect0(spec)
+        n = flat0[draw(st.integers(0, len(flat0) - 1))]
+        other = draw(st.sampled_from(["a", "b", "c", "a1", 3, 7]))
+        if other != n[0]:
+            del n[2:]
+            n.append({"id": other})
+    gen.fix_sibling_ids(spec, auto=lambda label: ("x", label))
     # explicit node ids: distinct ints from a pool that overlaps explicit int data_ids
     flat = []
 
